@@ -35,6 +35,11 @@ def make_scratch(repo=None):
     with open(os.path.join(d, ".cargo", "config.toml"), "w") as f:
         f.write("[net]\noffline = true\n")
     injected = []
+    # crate-level feature gate needed by the BinaryHeap::push contract stub (generic over the allocator parameter)
+    librs = os.path.join(d, "lib/src/lib.rs")
+    if os.path.exists(librs):
+        txt = open(librs).read()
+        open(librs, "w").write("#![cfg_attr(kani, feature(allocator_api))]\n" + txt)
     for modfile, line, hdir, dest in INJECT:
         srcdir = os.path.join(KANI_DIR, hdir)
         if not os.path.isdir(srcdir):
